@@ -83,12 +83,17 @@ let cmp6 (o : (z, 'v) c16_ops) a b =
 let spec6 i j = bits (c16_spec_cmp (z_of_int i) (z_of_int j)) ^ ":" ^ string_of_z (c16_spec_diff (z_of_int i) (z_of_int j))
 let spec2 i j = String.sub (bits (c16_spec_cmp (z_of_int i) (z_of_int j))) 0 2
 
+(* conv = is_convertible<T2,T1> for (lhs : T1, rhs : T2).  DenseIterator and GenericIterator DECLARE both converting
+   constructors in both variants, so the trait is true for every mix and only the first branch of the facade operators
+   is ever taken; the ArrayList iterators convert mutable -> const only, so (mutable lhs, const rhs) takes the second
+   branch.  The new IteratorFacade has no such case split. *)
+let combos_conv_all = [ ("mm", true); ("mc", true); ("cm", true); ("cc", true) ]
 let combos = [ ("mm", true); ("mc", false); ("cm", true); ("cc", true) ]
 
 let do_cmp ks n i j =
   let k = kind_of ks n in
   if i < k.lo || j < k.lo || i > n || j > n then ("BADCASE", "BADCASE") else
-  let cs = if k.two then combos else [ ("mm", true) ] in
+  let cs = if not k.two then [ ("mm", true) ] else if String.length ks >= 2 && String.sub ks 0 2 = "al" then combos else combos_conv_all in
   String.concat " " (List.map (fun (nm, conv) -> nm ^ "=" ^ cmp6 (k.ops conv) (k.rep i) (k.rep j)) cs),
   String.concat " " (List.map (fun (nm, _) -> nm ^ "=" ^ spec6 i j) cs)
 
